@@ -295,6 +295,22 @@ impl Inst {
         r.ok().map(|(p, eh)| (p, eh.0, eh.1))
     }
 
+    pub async fn batch_lookup(&self, us: &[AkdLabel]) -> Option<(Vec<LookupProof>, u64, [u8; 32])> {
+        if self.readonly {
+            let vrf = HardCodedAkdVRF {};
+            let r = with_cfg!(self.cfg.as_str(), TC => {
+                let d = akd::directory::ReadOnlyDirectory::<TC, _, _>::new(self.storage.clone(), vrf, self.par).await.ok()?;
+                d.batch_lookup(us).await
+            });
+            return r.ok().map(|(p, eh)| (p, eh.0, eh.1));
+        }
+        let r = match &self.dir {
+            AnyDir::W(d) => d.batch_lookup(us).await,
+            AnyDir::E(d) => d.batch_lookup(us).await,
+        };
+        r.ok().map(|(p, eh)| (p, eh.0, eh.1))
+    }
+
     pub async fn history(&self, u: &AkdLabel, p: HistoryParams) -> Option<(HistoryProof, u64, [u8; 32])> {
         if self.readonly {
             let vrf = HardCodedAkdVRF {};
@@ -1170,6 +1186,35 @@ fn step_inner(ex: &mut Exec, st: &mut L1State, op: &str, toks: &[&str]) -> Optio
                     ex.stats.bump(op, "err");
                     Some("err".into())
                 }
+            }
+        }
+        "dir.batchlookup" if toks.len() >= 1 => {
+            let inst = st.inst.as_ref()?;
+            let us: Vec<AkdLabel> = toks[1..].iter().map(|t| parse_hex(t).map(AkdLabel)).collect::<Option<Vec<_>>>()?;
+            match st.rt.block_on(inst.batch_lookup(&us)) {
+                Some((ps, e, h)) => {
+                    ex.stats.bump(op, "ok");
+                    if ps.len() != us.len() {
+                        ex.fail_tag("C02", "batch-lookup-count", format!("{:?}: {} proofs for {} labels", toks, ps.len(), us.len()));
+                    }
+                    Some(format!("{} {} {}", e, hex32(&h), us.iter().zip(ps.iter()).map(|(u, p)| show_lookup(inst, &st.rt, u, p)).collect::<Vec<_>>().join(" ")).trim_end().to_string())
+                }
+                None => {
+                    ex.stats.bump(op, "err");
+                    Some("err".into())
+                }
+            }
+        }
+        // oracle line: every proof of the batch verifies against the returned epoch hash, to the specification's answer
+        "spec.batchlookup" if toks.len() >= 1 => {
+            let inst = st.inst.as_ref()?;
+            let us: Vec<AkdLabel> = toks[1..].iter().map(|t| parse_hex(t).map(AkdLabel)).collect::<Option<Vec<_>>>()?;
+            match st.rt.block_on(inst.batch_lookup(&us)) {
+                Some((ps, e, h)) => Some(format!(
+                    "ok {}",
+                    us.iter().zip(ps.into_iter()).map(|(u, p)| match inst.verify_lookup(h, e, u, p) { Ok(r) => show_result(&r), Err(_) => "rej".to_string() }).collect::<Vec<_>>().join(" ")
+                )),
+                None => Some("none".into()),
             }
         }
         "dir.history" if toks.len() == 3 => {
